@@ -90,6 +90,18 @@ fn build_source(root: &Path, rng: &mut Rng) {
     }
 }
 
+/// things outside the destination which pre-existing symlinks point to
+fn victims(dest: &Path) -> PathBuf {
+    let v = PathBuf::from(format!("{}.victims", dest.display()));
+    if !v.exists() {
+        std::fs::create_dir_all(v.join("vdir/keep")).unwrap();
+        std::fs::write(v.join("vfile"), b"victim file outside the destination").unwrap();
+        std::fs::write(v.join("vdir/keep/inner"), b"victim inside an outside directory").unwrap();
+        std::fs::set_permissions(v.join("vfile"), std::fs::Permissions::from_mode(0o600)).unwrap();
+    }
+    v
+}
+
 /// mutate a restored copy into a "pre-existing destination"
 fn mutate(dest: &Path, rng: &mut Rng, kind: u64) -> String {
     let keep_mtime = |p: &Path, f: &dyn Fn()| {
@@ -99,7 +111,7 @@ fn mutate(dest: &Path, rng: &mut Rng, kind: u64) -> String {
         _ = filetime::set_file_times(p, ft, ft);
     };
     let pick = |rng: &mut Rng| -> &'static str { *rng.pick(&["a", "d/c", "d/e/f", "d/zeros", "g"]) };
-    match kind % 14 {
+    match kind % 16 {
         0 => "identical".into(),
         1 => {
             // same size, other content, same mtime: only verification can notice
@@ -179,6 +191,21 @@ fn mutate(dest: &Path, rng: &mut Rng, kind: u64) -> String {
             let len = std::fs::metadata(&p).unwrap().len() as usize;
             std::fs::write(&p, vec![0xAAu8; len]).unwrap();
             "nonzero-over-zero-blocks d/zeros".into()
+        }
+        14 => {
+            // a symlink to an EXISTING file outside the destination where the snapshot has a regular file
+            let f = pick(rng);
+            let victim = victims(dest).join("vfile");
+            std::fs::remove_file(dest.join(f)).unwrap();
+            _ = symlink(&victim, dest.join(f));
+            format!("file-replaced-by-symlink-to-outside-file {f}")
+        }
+        15 => {
+            // a symlink to an EXISTING directory outside the destination where the snapshot has a directory
+            let victim = victims(dest).join("vdir");
+            std::fs::remove_dir_all(dest.join("d/e")).unwrap();
+            _ = symlink(&victim, dest.join("d/e"));
+            "dir-replaced-by-symlink-to-outside-dir d/e".into()
         }
         _ => {
             // several at once
@@ -297,17 +324,22 @@ pub fn run(a: &Args) {
             let r0 = restore(&s, &s.snap, &dest, &json!({"delete":true,"verify":true,"sparse":false,"no_ownership":false}));
             if !r0.is_ok() {
                 out.rec(&json!({"kind":"restore","id":format!("r{c}"),"what":"initial restore failed","outcome":r0.class(),"msg":r0.msg(),
-                    "opts":o,"snap":[],"pre":[],"post":[]}));
+                    "opts":o,"snap":[],"pre":[],"post":[],"outside_pre":[],"outside_post":[]}));
                 continue;
             }
-            let mk = c + rng.below(14);
+            let mk = c + rng.below(16);
             what = mutate(&dest, &mut rng, mk);
         }
         let pre = project(&dest);
+        let vdir = victims(&dest);
+        let outside_pre = project(&vdir);
         let r = restore(&s, &s.snap, &dest, &o);
         let post = project(&dest);
+        let outside_post = project(&vdir);
         out.rec(&json!({"kind":"restore","id":format!("r{c}"),"seed":seed,"what":what,"opts":o,"outcome":r.class(),"msg":r.msg(),
-            "snap":tojson(&snap_proj),"pre":tojson(&pre),"post":tojson(&post)}));
+            "snap":tojson(&snap_proj),"pre":tojson(&pre),"post":tojson(&post),
+            "outside_pre":tojson(&outside_pre),"outside_post":tojson(&outside_post)}));
+        _ = std::fs::remove_dir_all(&vdir);
         n += 1;
         // restore must be able to delete what it created, whatever modes
         _ = std::fs::remove_dir_all(&dest);
